@@ -153,71 +153,140 @@ def gate_call(c, env, gate="gate"):
 
 
 def strip_doc(body):
-    if body and isinstance(body[0], ast.Expr) and isinstance(body[0].value, ast.Constant) and isinstance(body[0].value.value, str):
-        return body[1:]
-    return body
+    """drop the docstring, bare string statements and `pass`"""
+    out = []
+    for st in body:
+        if isinstance(st, ast.Expr) and isinstance(st.value, ast.Constant) and isinstance(st.value.value, str):
+            continue
+        if isinstance(st, ast.Pass):
+            continue
+        out.append(st)
+    return out
+
+
+def positional(fd, n):
+    """names of the n positional parameters of a plain function (identified by POSITION); anything fancier is refused"""
+    a = fd.args
+    if a.vararg or a.kwarg or a.kwonlyargs or a.defaults or a.kw_defaults or fd.decorator_list or isinstance(fd, ast.AsyncFunctionDef):
+        raise Refuse("unexpected signature (defaults / *args / decorators)")
+    names = [x.arg for x in list(a.posonlyargs) + list(a.args)]
+    if len(names) != n or len(set(names)) != n:
+        raise Refuse(f"unexpected signature ({len(names)} parameters, {n} expected)")
+    return names
+
+
+class Rename(ast.NodeTransformer):
+    """alpha-renaming of local names (roles are found from the calls they are passed to)"""
+
+    def __init__(self, mp):
+        self.mp = mp
+
+    def visit_Name(self, n):
+        if n.id in self.mp:
+            return ast.copy_location(ast.Name(id=self.mp[n.id], ctx=n.ctx), n)
+        return n
+
+    def visit_arg(self, n):
+        if n.arg in self.mp:
+            n.arg = self.mp[n.arg]
+        return n
+
+
+def rename(node, mp):
+    """mp: actual -> canonical; refuses a renaming that would capture an existing name"""
+    mp = {a: c for a, c in mp.items() if a != c}
+    if not mp:
+        return node
+    used = {n.id for n in ast.walk(node) if isinstance(n, ast.Name)} | {n.arg for n in ast.walk(node) if isinstance(n, ast.arg)}
+    for a, c in mp.items():
+        if c in used and c not in mp:
+            raise Refuse(f"cannot normalise local name {a} -> {c}: {c} is used for something else")
+    if len(set(mp.values())) != len(mp):
+        raise Refuse("two locals play the same role")
+    return ast.fix_missing_locations(Rename(mp).visit(node))
+
+
+def flatten_if(node):
+    """if/elif/else chain (also written as else: if ...) -> ([(test, body)], else_body)"""
+    chain = []
+    while True:
+        chain.append((node.test, strip_doc(node.body)))
+        oe = strip_doc(node.orelse)
+        if len(oe) == 1 and isinstance(oe[0], ast.If):
+            node = oe[0]
+            continue
+        return chain, oe
+
+
+def append_arg(st, dest):
+    """`dest.append(x)` -> x, else None"""
+    if isinstance(st, ast.Expr) and isinstance(st.value, ast.Call) and isinstance(st.value.func, ast.Attribute) \
+            and st.value.func.attr == "append" and ast.unparse(st.value.func.value) == dest \
+            and len(st.value.args) == 1 and not st.value.keywords and not isinstance(st.value.args[0], ast.Starred):
+        return st.value.args[0]
+    return None
 
 
 def emits(stmts, env, dest, gate="gate"):
-    """straight-line code appending gates to `dest` -> list of emit texts (env is extended by local scalar assignments)"""
+    """straight-line code appending gates to `dest` -> list of emit texts.  Local constants (name = expression over pi and
+    earlier names) are kept in the environment `env`, wherever they are written."""
     out = []
-    for st in stmts:
+
+    def one(a):
+        if isinstance(a, ast.Name) and a.id == gate:
+            return "ESame"
+        return gate_call(a, env, gate)
+    for st in strip_doc(stmts):
         if isinstance(st, ast.Assign) and len(st.targets) == 1 and isinstance(st.targets[0], ast.Name):
             if st.targets[0].id in (gate, dest.split(".")[0]):
                 raise Refuse(f"assignment to {st.targets[0].id}")
             env[st.targets[0].id] = "(" + ex(st.value, env, gate) + ")"
-        elif isinstance(st, ast.Expr) and isinstance(st.value, ast.Call) and isinstance(st.value.func, ast.Attribute) \
-                and st.value.func.attr == "append" and ast.unparse(st.value.func.value) == dest \
-                and len(st.value.args) == 1 and not st.value.keywords:
-            a = st.value.args[0]
-            if isinstance(a, ast.Name) and a.id == gate:
-                out.append("ESame")
-            else:
-                out.append(gate_call(a, env, gate))
+        elif isinstance(st, ast.AnnAssign) and isinstance(st.target, ast.Name) and st.value is not None and st.simple:
+            if st.target.id in (gate, dest.split(".")[0]):
+                raise Refuse(f"assignment to {st.target.id}")
+            env[st.target.id] = "(" + ex(st.value, env, gate) + ")"
+        elif append_arg(st, dest) is not None:
+            out.append(one(append_arg(st, dest)))
+        elif isinstance(st, ast.AugAssign) and isinstance(st.op, ast.Add) and ast.unparse(st.target) == dest \
+                and isinstance(st.value, (ast.List, ast.Tuple)) and "." not in dest:
+            # `name += [..]` on a plain list name extends in place (as the rules use it on their parameter)
+            out += [one(el) for el in st.value.elts]
         elif isinstance(st, ast.AugAssign) and isinstance(st.op, ast.Add) and ast.unparse(st.target) == dest \
                 and isinstance(st.value, ast.List):
-            for el in st.value.elts:
-                if isinstance(el, ast.Name) and el.id == gate:
-                    out.append("ESame")
-                else:
-                    out.append(gate_call(el, env, gate))
-        elif isinstance(st, ast.Expr) and isinstance(st.value, ast.Constant) and isinstance(st.value.value, str):
-            pass
-        elif isinstance(st, ast.Pass):
-            pass
+            out += [one(el) for el in st.value.elts]
+        elif isinstance(st, ast.Expr) and isinstance(st.value, ast.Call) and isinstance(st.value.func, ast.Attribute) \
+                and st.value.func.attr == "extend" and ast.unparse(st.value.func.value) == dest and len(st.value.args) == 1 \
+                and not st.value.keywords and isinstance(st.value.args[0], (ast.List, ast.Tuple)):
+            out += [one(el) for el in st.value.args[0].elts]
         else:
             raise Refuse(f"statement {type(st).__name__} at line {st.lineno}: {ast.unparse(st)[:70]}")
     return out
 
 
 def name_test(t, gate="gate"):
-    """`gate.name == "X"` -> "X" """
-    if isinstance(t, ast.Compare) and ast.unparse(t.left) == gate + ".name" and len(t.ops) == 1 and isinstance(t.ops[0], ast.Eq) \
-            and isinstance(t.comparators[0], ast.Constant) and isinstance(t.comparators[0].value, str):
-        return t.comparators[0].value
+    """`gate.name == "X"` (either way round) -> "X" """
+    if isinstance(t, ast.Compare) and len(t.ops) == 1 and isinstance(t.ops[0], ast.Eq):
+        l, r = t.left, t.comparators[0]
+        if isinstance(l, ast.Constant):
+            l, r = r, l
+        if ast.unparse(l) == gate + ".name" and isinstance(r, ast.Constant) and isinstance(r.value, str):
+            return r.value
     raise Refuse("test is not gate.name == <str>: " + ast.unparse(t))
 
 
 def branches(loop_body, env, dest, parse_test, gate="gate"):
-    """body of `for gate in ...:` = if/elif chain on the gate name ending in `else: dest.append(gate)` -> [(name, [emit])]"""
-    pre = [s for s in loop_body if not isinstance(s, ast.If)]
-    ifs = [s for s in loop_body if isinstance(s, ast.If)]
-    if len(ifs) != 1 or loop_body[-1] is not ifs[0]:
-        raise Refuse("loop body is not (scalar assignments; one if/elif chain)")
-    emits(pre, env, dest, gate)  # only assignments allowed (emits() refuses anything else; appended gates refused below)
-    if any(not isinstance(s, ast.Assign) for s in pre):
-        raise Refuse("statement before the if chain")
-    out = []
-    node = ifs[0]
-    while True:
-        nm = parse_test(node.test)
-        out.append((nm, emits(node.body, dict(env), dest, gate)))
-        if len(node.orelse) == 1 and isinstance(node.orelse[0], ast.If):
-            node = node.orelse[0]
-            continue
-        if emits(node.orelse, dict(env), dest, gate) != ["ESame"]:
-            raise Refuse("chain does not end in `else: append(gate)`")
-        break
+    """body of `for gate in ...:` = local constants + one if/elif chain on the gate name ending in `else: dest.append(gate)`
+    -> [(name, [emit])]"""
+    body = strip_doc(loop_body)
+    ifs = [s for s in body if isinstance(s, ast.If)]
+    if len(ifs) != 1 or body[-1] is not ifs[0]:
+        raise Refuse("loop body is not (local constants; one if/elif chain)")
+    if emits(body[:-1], env, dest, gate):
+        raise Refuse("gate appended before the if chain")
+    chain, els = flatten_if(ifs[0])
+    out = [(parse_test(t), emits(b, dict(env), dest, gate)) for t, b in chain]
+    if emits(els, dict(env), dest, gate) != ["ESame"]:
+        raise Refuse("chain does not end in `else: append(gate)`")
     names = [n for n, _ in out]
     if len(set(names)) != len(names):
         raise Refuse("duplicate branch " + str(names))
@@ -230,26 +299,75 @@ def str_list(n):
     raise Refuse("not a list of string constants: " + ast.unparse(n)[:60])
 
 
-RESOLVE_TO_UNIVERSAL = (
-    "if gate.name in basis_2q:\n"
-    "    method = _gate_basis_2q\n"
-    "else:\n"
-    "    if gate.name == 'SWAP' and 'ISWAP' in basis_2q:\n"
-    "        method = _gate_IGNORED\n"
-    "    else:\n"
-    "        method = globals()['_gate_' + str(gate.name)]\n"
-    "method(gate, temp_resolved)"
-)
-RESOLVE_TO_UNIVERSAL_FLAT = (
-    "if gate.name in basis_2q:\n"
-    "    method = _gate_basis_2q\n"
-    "elif gate.name == 'SWAP' and 'ISWAP' in basis_2q:\n"
-    "    method = _gate_IGNORED\n"
-    "else:\n"
-    "    method = globals()['_gate_' + str(gate.name)]\n"
-    "method(gate, temp_resolved)"
-)
-RESOLVE_2Q = "method = globals()['_basis_' + str(basis)]\nmethod(qc_temp, temp_resolved)"
+def call_of(st):
+    """expression statement that is a plain positional call -> (callee text, [arg texts]) else None"""
+    if isinstance(st, ast.Expr) and isinstance(st.value, ast.Call) and not st.value.keywords \
+            and not any(isinstance(a, ast.Starred) for a in st.value.args):
+        return ast.unparse(st.value.func), [ast.unparse(a) for a in st.value.args]
+    return None
+
+
+def dispatch_shape(body, tests_values, args):
+    """`if t1: M = v1 elif t2: M = v2 ... else: M = vn` followed by `M(args)`, or the same with the calls written in the
+    branches; returns True iff the chain has exactly the given tests/values (tests_values[-1][0] is None for the else)"""
+    body = strip_doc(body)
+    if not body or not isinstance(body[0], ast.If):
+        return False
+    chain, els = flatten_if(body[0])
+    got = chain + [(None, els)]
+    if len(got) != len(tests_values):
+        return False
+    local = None
+    direct = len(body) == 1
+    if not direct:
+        if len(body) != 2:
+            return False
+        c = call_of(body[1])
+        if c is None or c[1] != args or not c[0].isidentifier():
+            return False
+        local = c[0]
+        if local in args:
+            return False
+    for (t, b), (wt, wv) in zip(got, tests_values):
+        if (t is None) != (wt is None) or (t is not None and ast.unparse(t) != wt):
+            return False
+        if len(b) != 1:
+            return False
+        if direct:
+            c = call_of(b[0])
+            if c is None or c[0] != wv or c[1] != args:
+                return False
+        else:
+            if not (isinstance(b[0], ast.Assign) and len(b[0].targets) == 1 and ast.unparse(b[0].targets[0]) == local
+                    and ast.unparse(b[0].value) == wv):
+                return False
+    return True
+
+
+def check_resolve_to_universal(fd):
+    g, out, b1, b2 = positional(fd, 4)
+    want = [(f"{g}.name in {b2}", "_gate_basis_2q"),
+            (f"{g}.name == 'SWAP' and 'ISWAP' in {b2}", "_gate_IGNORED"),
+            (None, f"globals()['_gate_' + str({g}.name)]")]
+    if not dispatch_shape(fd.body, want, [g, out]):
+        raise Refuse("dispatch differs from the modelled precedence (name in basis_2q; SWAP with ISWAP in basis_2q; _gate_<name>)")
+
+
+def check_resolve_2q(fd):
+    b, qc, temp = positional(fd, 3)
+    body = strip_doc(fd.body)
+    look = f"globals()['_basis_' + str({b})]"
+    if len(body) == 1:
+        c = call_of(body[0])
+        if c is not None and c[0] == look and c[1] == [qc, temp]:
+            return
+    if len(body) == 2 and isinstance(body[0], ast.Assign) and len(body[0].targets) == 1 and isinstance(body[0].targets[0], ast.Name) \
+            and ast.unparse(body[0].value) == look:
+        c = call_of(body[1])
+        m = body[0].targets[0].id
+        if c is not None and c[0] == m and c[1] == [qc, temp] and m not in (b, qc, temp):
+            return
+    raise Refuse("dispatch differs from the modelled one (_basis_<name>(qc_temp, temp_resolved))")
 
 
 def translate_decompose(path):
@@ -259,58 +377,60 @@ def translate_decompose(path):
     except (OSError, SyntaxError) as e:
         raise Broken(where + ":parse", str(e))
     defs = {}      # X -> rule text
-    table = {}     # N -> X   (insertion order = module order; rebinding moves nothing, value replaced)
+    table = {}     # N -> X   (module order; a later binding overrides an earlier one like in Python)
     passes = {}
     seen_dispatch = set()
     for node in mod.body:
         if isinstance(node, ast.FunctionDef) and node.name.startswith("_gate_"):
             X = node.name[len("_gate_"):]
-            args = [a.arg for a in node.args.args]
-            if args != ["gate", "temp_resolved"] or node.args.defaults or node.args.vararg or node.args.kwarg or node.decorator_list:
-                raise Broken(f"{where}:{node.name}", "unexpected signature")
-            body = strip_doc(node.body)
             try:
+                g, out = positional(node, 2)
+                body = strip_doc(node.body)
                 if len(body) == 1 and isinstance(body[0], ast.Raise):
                     exc = body[0].exc
-                    en = ast.unparse(exc.func) if isinstance(exc, ast.Call) else ast.unparse(exc)
-                    if en == "KeyError":
-                        raise Refuse("rule raises KeyError (would be caught by resolve_gates)")
+                    en = ast.unparse(exc.func) if isinstance(exc, ast.Call) else (ast.unparse(exc) if exc is not None else "")
+                    if en != "NotImplementedError":
+                        raise Refuse(f"rule raises {en or 'nothing'} (only NotImplementedError is modelled)")
                     defs[X] = "RRaise"
                 else:
-                    defs[X] = "REmit [" + "; ".join(emits(body, {}, "temp_resolved")) + "]"
+                    defs[X] = "REmit [" + "; ".join(emits(body, {}, out, g)) + "]"
             except Refuse as r:
                 raise Broken(f"{where}:{node.name}", str(r))
             table[X] = X
         elif isinstance(node, ast.FunctionDef) and node.name.startswith("_basis_"):
             Y = node.name[len("_basis_"):]
-            args = [a.arg for a in node.args.args]
-            if args != ["qc_temp", "temp_resolved"] or node.args.defaults or node.decorator_list:
-                raise Broken(f"{where}:{node.name}", "unexpected signature")
-            body = strip_doc(node.body)
             try:
+                qc, temp = positional(node, 2)
+                dest = qc + ".gates"
+                body = strip_doc(node.body)
                 env = {}
-                pre = body[:-1]
-                if any(not isinstance(s, ast.Assign) for s in pre):
-                    raise Refuse("statement other than a scalar assignment before the loop")
-                emits(pre, env, "qc_temp.gates")
-                loop = body[-1] if body else None
-                if not (isinstance(loop, ast.For) and ast.unparse(loop.target) == "gate" and ast.unparse(loop.iter) == "temp_resolved"
-                        and not loop.orelse):
-                    raise Refuse("body does not end in `for gate in temp_resolved:`")
-                passes[Y] = branches(loop.body, env, "qc_temp.gates", name_test)
+                loops = [s for s in body if isinstance(s, ast.For)]
+                if len(loops) != 1 or body[-1] is not loops[0]:
+                    raise Refuse("body is not (local constants; one loop over the gates)")
+                if emits(body[:-1], env, dest, "__no_gate__"):
+                    raise Refuse("gate appended before the loop")
+                loop = loops[0]
+                if not (isinstance(loop.target, ast.Name) and ast.unparse(loop.iter) == temp and not strip_doc(loop.orelse)
+                        and loop.target.id not in (qc, temp)):
+                    raise Refuse("loop is not `for gate in temp_resolved:`")
+                g = loop.target.id
+                passes[Y] = branches(loop.body, env, dest, lambda t: name_test(t, g), g)
             except Refuse as r:
                 raise Broken(f"{where}:{node.name}", str(r))
         elif isinstance(node, ast.FunctionDef) and node.name == "_resolve_to_universal":
-            if [a.arg for a in node.args.args] != ["gate", "temp_resolved", "basis_1q", "basis_2q"] or \
-                    ast.unparse(strip_doc(node.body)) not in (RESOLVE_TO_UNIVERSAL, RESOLVE_TO_UNIVERSAL_FLAT):
-                raise Broken(f"{where}:_resolve_to_universal", "dispatch differs from the modelled precedence")
+            try:
+                check_resolve_to_universal(node)
+            except Refuse as r:
+                raise Broken(f"{where}:_resolve_to_universal", str(r))
             seen_dispatch.add(node.name)
         elif isinstance(node, ast.FunctionDef) and node.name == "_resolve_2q_basis":
-            if [a.arg for a in node.args.args] != ["basis", "qc_temp", "temp_resolved"] or ast.unparse(strip_doc(node.body)) != RESOLVE_2Q:
-                raise Broken(f"{where}:_resolve_2q_basis", "dispatch differs from the modelled one")
+            try:
+                check_resolve_2q(node)
+            except Refuse as r:
+                raise Broken(f"{where}:_resolve_2q_basis", str(r))
             seen_dispatch.add(node.name)
-        elif isinstance(node, ast.FunctionDef):
-            raise Broken(f"{where}:{node.name}", "unknown module-level function")
+        elif isinstance(node, (ast.FunctionDef, ast.AsyncFunctionDef, ast.ClassDef)):
+            raise Broken(f"{where}:{node.name}", "unknown module-level definition")
         elif isinstance(node, ast.Assign) and all(isinstance(t, ast.Name) for t in node.targets) and isinstance(node.value, ast.Name):
             src = node.value.id
             for t in node.targets:
@@ -324,8 +444,8 @@ def translate_decompose(path):
             pass
         elif isinstance(node, ast.Expr) and isinstance(node.value, ast.Constant) and isinstance(node.value.value, str):
             pass
-        elif isinstance(node, ast.Assign) and ast.unparse(node.targets[0]) == "__all__":
-            pass
+        elif isinstance(node, ast.Assign) and ast.unparse(node.targets[0]) == "__all__" and len(node.targets) == 1:
+            str_list(node.value) if isinstance(node.value, (ast.List, ast.Tuple)) else None
         else:
             raise Broken(f"{where}:line{node.lineno}", "unknown module-level statement " + ast.unparse(node)[:60])
     if seen_dispatch != {"_resolve_to_universal", "_resolve_2q_basis"}:
@@ -348,170 +468,413 @@ def _find_method(path):
     return m
 
 
+# ---- resolve_gates ---------------------------------------------------------------------------------------------------
+def _roles(m):
+    """canonical names of the locals, found from the two dispatch calls they are passed to (by position)"""
+    mp = {}
+    u = [n for n in ast.walk(m) if isinstance(n, ast.Call) and ast.unparse(n.func) == "_resolve_to_universal"]
+    q = [n for n in ast.walk(m) if isinstance(n, ast.Call) and ast.unparse(n.func) == "_resolve_2q_basis"]
+    if len(u) != 1 or len(q) != 1:
+        raise Refuse("expected exactly one call of _resolve_to_universal and one of _resolve_2q_basis")
+    for call, canon in ((u[0], ["gate", "temp_resolved", "basis_1q", "basis_2q"]), (q[0], ["basis_unit", "qc_temp", "temp_resolved"])):
+        if call.keywords or len(call.args) != len(canon) or not all(isinstance(a, ast.Name) for a in call.args):
+            raise Refuse("dispatch call is not a plain positional call on local names")
+        for a, c in zip(call.args, canon):
+            if mp.get(a.id, c) != c:
+                raise Refuse(f"local {a.id} plays two roles")
+            mp[a.id] = c
+    return mp
+
+
+def _is_meas_pred(n, var):
+    return ast.unparse(n) == f"isinstance({var}, Measurement)"
+
+
+def _meas_collection(n):
+    """an expression that enumerates exactly the measurements among self.gates (filter / comprehension / generator)"""
+    if isinstance(n, ast.Call) and ast.unparse(n.func) in ("list", "tuple") and len(n.args) == 1 and not n.keywords:
+        return _meas_collection(n.args[0])
+    if isinstance(n, ast.Call) and ast.unparse(n.func) == "filter" and len(n.args) == 2 and not n.keywords \
+            and ast.unparse(n.args[1]) == "self.gates" and isinstance(n.args[0], ast.Lambda):
+        la = n.args[0]
+        if len(la.args.args) == 1 and not la.args.defaults and not la.args.vararg and not la.args.kwarg \
+                and _is_meas_pred(la.body, la.args.args[0].arg):
+            return True
+    if isinstance(n, (ast.ListComp, ast.GeneratorExp)) and len(n.generators) == 1:
+        g = n.generators[0]
+        if isinstance(g.target, ast.Name) and not g.is_async and ast.unparse(g.iter) == "self.gates" and len(g.ifs) == 1 \
+                and _is_meas_pred(g.ifs[0], g.target.id) and isinstance(n.elt, (ast.Name, ast.Constant)):
+            return True
+    return False
+
+
+def _meas_count(n):
+    """len(<collection>) or sum(1 for ...)"""
+    if isinstance(n, ast.Call) and not n.keywords and len(n.args) == 1:
+        f = ast.unparse(n.func)
+        if f == "len" and not isinstance(n.args[0], ast.GeneratorExp) and _meas_collection(n.args[0]):
+            return True
+        if f == "sum" and isinstance(n.args[0], (ast.GeneratorExp, ast.ListComp)) and isinstance(n.args[0].elt, ast.Constant) \
+                and n.args[0].elt.value == 1 and _meas_collection(n.args[0]):
+            return True
+    return False
+
+
+def _meas_test(t, counts):
+    """is `t` true exactly when the circuit contains a measurement? (counts: local names bound to the number of measurements)"""
+    def is_count(e):
+        return _meas_count(e) or (isinstance(e, ast.Name) and e.id in counts)
+    if isinstance(t, ast.Compare) and len(t.ops) == 1 and isinstance(t.comparators[0], ast.Constant) and is_count(t.left):
+        v, op = t.comparators[0].value, t.ops[0]
+        if (isinstance(op, ast.Gt) and v == 0) or (isinstance(op, ast.GtE) and v == 1) or (isinstance(op, ast.NotEq) and v == 0):
+            return True
+    if is_count(t):
+        return True          # truthiness of the count
+    if isinstance(t, ast.Call) and ast.unparse(t.func) == "any" and len(t.args) == 1 and not t.keywords:
+        a = t.args[0]
+        if isinstance(a, (ast.GeneratorExp, ast.ListComp)) and len(a.generators) == 1:
+            g = a.generators[0]
+            if isinstance(g.target, ast.Name) and not g.is_async and not g.ifs and ast.unparse(g.iter) == "self.gates" \
+                    and _is_meas_pred(a.elt, g.target.id):
+                return True
+    if isinstance(t, (ast.List, ast.ListComp)) and _meas_collection(t):
+        return True
+    return False
+
+
+def _only_raises(body):
+    body = strip_doc(body)
+    return bool(body) and isinstance(body[-1], ast.Raise) and all(
+        isinstance(x, ast.Raise) or (isinstance(x, ast.Assign) and all(isinstance(t, ast.Name) for t in x.targets)
+                                     and not any(isinstance(c, ast.Call) for c in ast.walk(x.value)))
+        for x in body)
+
+
+LIST_BRANCH = (
+    "basis_1q = []\nbasis_2q = []\n"
+    "for gate in basis:\n"
+    "    if gate in basis_2q_valid:\n        basis_2q.append(gate)\n"
+    "    elif gate in basis_1q_valid:\n        basis_1q.append(gate)")
+
+
+def _parse_basis_block(st, consts):
+    """the `if isinstance(basis, list): ... else: ...` statement -> dict of data"""
+    lb = strip_doc(st.body)
+    # canonical local names inside the list branch: the loop variable
+    if len(lb) < 5 or not isinstance(lb[2], ast.For) or not isinstance(lb[2].target, ast.Name):
+        raise Refuse("list-basis branch shape")
+    loop = lb[2]
+    lv = loop.target.id
+    if strip_doc(loop.orelse) or ast.unparse(loop.iter) != "basis":
+        raise Refuse("list-basis loop")
+    body = strip_doc(loop.body)
+    if len(body) != 1 or not isinstance(body[0], ast.If):
+        raise Refuse("list-basis loop body")
+    chain, els = flatten_if(body[0])
+    if strip_doc(els) or len(chain) != 2:
+        raise Refuse("list-basis loop: classification chain")
+    got = [ast.unparse(lb[0]), ast.unparse(lb[1])] + [(ast.unparse(t), [ast.unparse(x) for x in b]) for t, b in chain]
+    want = ["basis_1q = []", "basis_2q = []", (f"{lv} in basis_2q_valid", [f"basis_2q.append({lv})"]),
+            (f"{lv} in basis_1q_valid", [f"basis_1q.append({lv})"])]
+    if got != want and got != [want[1], want[0], want[2], want[3]]:
+        raise Refuse("list-basis branch differs from the modelled parsing")
+    rest = lb[3:]
+    rot_norm = None
+    if len(rest) == 3:
+        nz = rest[0]
+        ok = (isinstance(nz, ast.Assign) and len(nz.targets) == 1 and ast.unparse(nz.targets[0]) == "basis_1q"
+              and isinstance(nz.value, ast.ListComp) and len(nz.value.generators) == 1 and isinstance(nz.value.elt, ast.Name))
+        if ok:
+            gen = nz.value.generators[0]
+            v = nz.value.elt.id
+            ok = (isinstance(gen.target, ast.Name) and gen.target.id == v and not gen.is_async and len(gen.ifs) == 1
+                  and ast.unparse(gen.ifs[0]) == f"{v} in basis_1q")
+        if not ok:
+            raise Refuse("list-basis branch: unrecognised statement " + ast.unparse(nz)[:70])
+        it = gen.iter
+        rot_norm = consts[it.id] if isinstance(it, ast.Name) and it.id in consts else str_list(it)
+        rest = rest[1:]
+    if len(rest) != 2:
+        raise Refuse("list-basis branch: statements after the loop")
+    one, zero = rest
+    if not (isinstance(one, ast.If) and ast.unparse(one.test) == "len(basis_1q) == 1" and _only_raises(one.body) and not strip_doc(one.orelse)):
+        raise Refuse("list-basis branch: single-rotation refusal")
+    zb = strip_doc(zero.body) if isinstance(zero, ast.If) else []
+    if not (isinstance(zero, ast.If) and ast.unparse(zero.test) in ("len(basis_1q) == 0", "not basis_1q") and not strip_doc(zero.orelse)
+            and len(zb) == 1 and isinstance(zb[0], ast.Assign) and ast.unparse(zb[0].targets[0]) == "basis_1q" and len(zb[0].targets) == 1):
+        raise Refuse("list-basis branch: default rotations")
+    d1_list = consts[zb[0].value.id] if isinstance(zb[0].value, ast.Name) and zb[0].value.id in consts else str_list(zb[0].value)
+    # string branch
+    sb = strip_doc(st.orelse)
+    if len(sb) != 2:
+        raise Refuse("string-basis branch shape")
+    if isinstance(sb[0], ast.If):
+        sb = [sb[1], sb[0]]
+    if not (isinstance(sb[0], ast.Assign) and len(sb[0].targets) == 1 and ast.unparse(sb[0].targets[0]) == "basis_1q"):
+        raise Refuse("string-basis branch: default rotations")
+    d1_str = consts[sb[0].value.id] if isinstance(sb[0].value, ast.Name) and sb[0].value.id in consts else str_list(sb[0].value)
+    s2 = sb[1]
+    if not (isinstance(s2, ast.If) and ast.unparse(s2.test) == "basis in basis_2q_valid" and _only_raises(s2.orelse)):
+        raise Refuse("string-basis validity test")
+    sbody = sorted(ast.unparse(x) for x in strip_doc(s2.body))
+    if sbody == ["basis_2q = [basis]"]:
+        listified = False
+    elif sbody == ["basis = [basis]", "basis_2q = [basis]"] and ast.unparse(strip_doc(s2.body)[0]) == "basis_2q = [basis]":
+        listified = True
+    else:
+        raise Refuse("string-basis assignment: " + "; ".join(sbody))
+    return dict(d1_list=d1_list, d1_str=d1_str, listified=listified, rot_norm=rot_norm)
+
+
+def _parse_main_loop(st, scal):
+    if not (isinstance(st.target, ast.Name) and st.target.id == "gate" and not strip_doc(st.orelse)):
+        raise Refuse("main loop shape")
+    body = strip_doc(st.body)
+    if len(body) != 2:
+        raise Refuse("main loop body")
+    pa, tr = body
+    if not (isinstance(pa, ast.If) and isinstance(pa.test, ast.Compare) and ast.unparse(pa.test.left) == "gate.name"
+            and len(pa.test.ops) == 1 and isinstance(pa.test.ops[0], ast.In) and not strip_doc(pa.orelse)):
+        raise Refuse("Pauli substitution test")
+    pauli_names = str_list(pa.test.comparators[0])
+    pb = strip_doc(pa.body)
+    if len(pb) != 2:
+        raise Refuse("Pauli substitution body")
+    mk, sub = pb
+    to_temp = None
+    for dest, flag in (("temp_resolved", True), ("qc_temp.gates", False)):
+        a = append_arg(mk, dest)
+        if a is not None:
+            to_temp, marker = flag, gate_call(a, dict(scal))
+    if to_temp is None:
+        raise Refuse("Pauli marker statement: " + ast.unparse(mk)[:70])
+    if not (isinstance(sub, ast.Assign) and len(sub.targets) == 1 and ast.unparse(sub.targets[0]) == "gate"):
+        raise Refuse("Pauli substitution statement")
+    subst = gate_call(sub.value, dict(scal))
+    if not (isinstance(tr, ast.Try) and len(tr.handlers) == 1 and not strip_doc(tr.orelse) and not tr.finalbody
+            and ast.unparse(tr.handlers[0].type) == "KeyError" and tr.handlers[0].name is None):
+        raise Refuse("try/except KeyError shape")
+    tb = strip_doc(tr.body)
+    if len(tb) != 1 or call_of(tb[0]) != ("_resolve_to_universal", ["gate", "temp_resolved", "basis_1q", "basis_2q"]):
+        raise Refuse("try body is not the dispatch call")
+    hb = strip_doc(tr.handlers[0].body)
+    if len(hb) != 1 or not isinstance(hb[0], ast.If):
+        raise Refuse("KeyError handler shape")
+    h = hb[0]
+    keep = strip_doc(h.body)
+    if not (ast.unparse(h.test) == "gate.name in basis" and len(keep) == 1 and append_arg(keep[0], "temp_resolved") is not None
+            and ast.unparse(append_arg(keep[0], "temp_resolved")) == "gate" and _only_raises(h.orelse)):
+        raise Refuse("KeyError handler differs from (kept if gate.name in basis, else raise)")
+    return dict(pauli_names=pauli_names, to_temp=to_temp, marker=marker, subst=subst)
+
+
+def _parse_2q_pass(loop, after, flags_false):
+    """-> (order, number of following statements consumed).  Accepts the flag+break and the for/else spelling."""
+    if not isinstance(loop.target, ast.Name):
+        raise Refuse("two-qubit pass loop")
+    u = loop.target.id
+    order = str_list(loop.iter)
+    body = strip_doc(loop.body)
+    if len(body) != 1 or not isinstance(body[0], ast.If) or strip_doc(body[0].orelse) or ast.unparse(body[0].test) != f"{u} in basis_2q":
+        raise Refuse("two-qubit pass body")
+    ib = strip_doc(body[0].body)
+    if not ib or not isinstance(ib[-1], ast.Break):
+        raise Refuse("two-qubit pass: no break after the first match")
+    ib = ib[:-1]
+    flag = None
+    rest = []
+    for x in ib:
+        if isinstance(x, ast.Assign) and len(x.targets) == 1 and isinstance(x.targets[0], ast.Name) and ast.unparse(x.value) == "True" \
+                and flag is None:
+            flag = x.targets[0].id
+        else:
+            rest.append(x)
+    if len(rest) != 1 or call_of(rest[0]) != ("_resolve_2q_basis", [u, "qc_temp", "temp_resolved"]):
+        raise Refuse("two-qubit pass: dispatch call")
+    nomatch = "qc_temp.gates = temp_resolved"
+    oe = strip_doc(loop.orelse)
+    if oe:
+        if [ast.unparse(x) for x in oe] != [nomatch]:
+            raise Refuse("two-qubit pass: for/else suite")
+        return order, 0, None
+    if flag is None or flag not in flags_false:
+        raise Refuse("two-qubit pass: neither for/else nor a match flag initialised to False")
+    if not after:
+        raise Refuse("two-qubit pass: no-match assignment missing")
+    nx = after[0]
+    if not (isinstance(nx, ast.If) and ast.unparse(nx.test) == f"not {flag}" and not strip_doc(nx.orelse)
+            and [ast.unparse(x) for x in strip_doc(nx.body)] == [nomatch]):
+        raise Refuse("two-qubit pass: no-match assignment")
+    return order, 1, flag
+
+
+def _parse_elim(st, scal):
+    if strip_doc(st.orelse):
+        raise Refuse("elimination guard has an else")
+    eb = strip_doc(st.body)
+    if len(eb) < 3:
+        raise Refuse("elimination body")
+    loops = [s for s in eb if isinstance(s, ast.For)]
+    if len(loops) != 1 or eb[-1] is not loops[0]:
+        raise Refuse("elimination: body is not (prologue; one loop)")
+    loop = loops[0]
+    pro = eb[:-1]
+    # X = qc_temp.gates ; qc_temp.gates = []  (in this order), local constants anywhere around
+    src = None
+    consts = []
+    stage = 0
+    for x in pro:
+        t = ast.unparse(x)
+        if stage == 0 and isinstance(x, ast.Assign) and len(x.targets) == 1 and isinstance(x.targets[0], ast.Name) \
+                and ast.unparse(x.value) == "qc_temp.gates":
+            src = x.targets[0].id
+            stage = 1
+        elif stage == 1 and t == "qc_temp.gates = []":
+            stage = 2
+        elif isinstance(x, ast.Assign):
+            consts.append(x)
+        else:
+            raise Refuse("elimination prologue: " + t[:60])
+    if stage != 2 or src in ("qc_temp", "basis_1q", "basis_2q", "basis"):
+        raise Refuse("elimination prologue")
+    env = dict(scal)
+    if emits(consts, env, "qc_temp.gates", "__no_gate__"):
+        raise Refuse("elimination prologue appends gates")
+    if not (isinstance(loop.target, ast.Name) and ast.unparse(loop.iter) == src and not strip_doc(loop.orelse)):
+        raise Refuse("elimination loop")
+    g = loop.target.id
+    if g in (src, "qc_temp") or src in env or g in env:
+        raise Refuse("elimination loop variable")
+
+    def elim_test(t):
+        if isinstance(t, ast.BoolOp) and isinstance(t.op, ast.And) and len(t.values) == 2:
+            for a, b in ((t.values[0], t.values[1]), (t.values[1], t.values[0])):
+                try:
+                    nm = name_test(a, g)
+                except Refuse:
+                    continue
+                if ast.unparse(b) in (f"'{nm}' not in basis_1q", f"not '{nm}' in basis_1q"):
+                    return nm
+        raise Refuse("elimination test: " + ast.unparse(t))
+    return branches(loop.body, env, "qc_temp.gates", elim_test, g)
+
+
 def translate_resolve(path):
     where = "translator:circuit.py:resolve_gates"
     m = _find_method(path)
     try:
-        if [a.arg for a in m.args.args] != ["self", "basis"] or len(m.args.defaults) != 1:
+        a = m.args
+        if a.vararg or a.kwarg or a.kwonlyargs or a.posonlyargs or len(a.args) != 2 or len(a.defaults) != 1 or m.decorator_list:
             raise Refuse("signature")
-        default_basis = str_list(m.args.defaults[0])
+        default_basis = str_list(a.defaults[0])
+        mp = _roles(m)
+        mp[a.args[0].arg] = "self"
+        mp[a.args[1].arg] = "basis"
+        m = rename(m, mp)
         body = strip_doc(m.body)
+        if not body or ast.unparse(body[-1]) != "return qc_temp":
+            raise Refuse("does not end in `return qc_temp`")
+        body = body[:-1]
+        consts = {}          # local names bound to lists of string constants
+        flags_false = set()  # local names initialised to False
+        counts = set()       # local names bound to the number of measurements
+        scal = {}            # local names bound to constant angle expressions
+        seen = {}
+        data = {}
         i = 0
-
-        def nxt():
-            nonlocal i
-            if i >= len(body):
-                raise Refuse("body ended early")
+        while i < len(body):
+            st = body[i]
             i += 1
-            return body[i - 1]
-        st = nxt()
-        if not (isinstance(st, ast.Assign) and ast.unparse(st.targets[0]) == "qc_temp" and ast.unparse(st.value).startswith("QubitCircuit(self.N")):
-            raise Refuse("qc_temp construction")
-        st = nxt()
-        if ast.unparse(st) != "temp_resolved = []":
-            raise Refuse("temp_resolved initialisation")
-        st = nxt()
-        if not (isinstance(st, ast.Assign) and ast.unparse(st.targets[0]) == "basis_1q_valid"):
-            raise Refuse("basis_1q_valid")
-        v1 = str_list(st.value)
-        st = nxt()
-        if not (isinstance(st, ast.Assign) and ast.unparse(st.targets[0]) == "basis_2q_valid"):
-            raise Refuse("basis_2q_valid")
-        v2 = str_list(st.value)
-        st = nxt()
-        if ast.unparse(st) != "num_measurements = len(list(filter(lambda x: isinstance(x, Measurement), self.gates)))":
-            raise Refuse("measurement count")
-        st = nxt()
-        if not (isinstance(st, ast.If) and ast.unparse(st.test) == "num_measurements > 0" and len(st.body) == 1
-                and isinstance(st.body[0], ast.Raise) and not st.orelse):
-            raise Refuse("measurement refusal")
-        # ---- basis parsing
-        st = nxt()
-        if not (isinstance(st, ast.If) and ast.unparse(st.test) == "isinstance(basis, list)"):
-            raise Refuse("basis form test")
-        LIST_BRANCH = (
-            "basis_1q = []\nbasis_2q = []\n"
-            "for gate in basis:\n"
-            "    if gate in basis_2q_valid:\n        basis_2q.append(gate)\n"
-            "    elif gate in basis_1q_valid:\n        basis_1q.append(gate)\n"
-            "    else:\n        pass\n"
-            "if len(basis_1q) == 1:\n    raise ValueError('Not sufficient single-qubit gates in basis')\n"
-            "if len(basis_1q) == 0:\n    basis_1q = %s")
-        lb = list(st.body)
-        rot_norm = None
-        if len(lb) == 6:
-            # optional normalisation: basis_1q = [g for g in ["RX", "RY", "RZ"] if g in basis_1q]
-            nz = lb[3]
-            ok = (isinstance(nz, ast.Assign) and ast.unparse(nz.targets[0]) == "basis_1q" and isinstance(nz.value, ast.ListComp)
-                  and len(nz.value.generators) == 1 and isinstance(nz.value.elt, ast.Name))
-            if ok:
-                gen = nz.value.generators[0]
-                v = nz.value.elt.id
-                ok = (isinstance(gen.target, ast.Name) and gen.target.id == v and not gen.is_async and len(gen.ifs) == 1
-                      and ast.unparse(gen.ifs[0]) == f"{v} in basis_1q")
-            if not ok:
-                raise Refuse("list-basis branch: unrecognised statement " + ast.unparse(nz)[:70])
-            rot_norm = str_list(gen.iter)
-            del lb[3]
-        if len(lb) != 5 or not (isinstance(lb[4], ast.If) and len(lb[4].body) == 1 and isinstance(lb[4].body[0], ast.Assign)):
-            raise Refuse("list-basis branch shape")
-        d1_list = str_list(lb[4].body[0].value)
-        if ast.unparse(lb) != LIST_BRANCH % ast.unparse(lb[4].body[0].value):
-            raise Refuse("list-basis branch differs from the modelled parsing")
-        sb = st.orelse
-        if len(sb) != 2 or not (isinstance(sb[0], ast.Assign) and ast.unparse(sb[0].targets[0]) == "basis_1q"):
-            raise Refuse("string-basis branch shape")
-        d1_str = str_list(sb[0].value)
-        s2 = sb[1]
-        if not (isinstance(s2, ast.If) and ast.unparse(s2.test) == "basis in basis_2q_valid" and len(s2.orelse) == 1
-                and isinstance(s2.orelse[0], ast.Raise)):
-            raise Refuse("string-basis validity test")
-        sbody = [ast.unparse(x) for x in s2.body]
-        if sbody == ["basis_2q = [basis]"]:
-            listified = False
-        elif sorted(sbody) == ["basis = [basis]", "basis_2q = [basis]"] and sbody[0] == "basis_2q = [basis]":
-            listified = True
-        else:
-            raise Refuse("string-basis assignment: " + "; ".join(sbody))
-        # ---- main loop
-        st = nxt()
-        if not (isinstance(st, ast.For) and ast.unparse(st.target) == "gate" and ast.unparse(st.iter) == "self.gates" and not st.orelse
-                and len(st.body) == 2):
-            raise Refuse("main loop shape")
-        pa, tr = st.body
-        if not (isinstance(pa, ast.If) and isinstance(pa.test, ast.Compare) and ast.unparse(pa.test.left) == "gate.name"
-                and len(pa.test.ops) == 1 and isinstance(pa.test.ops[0], ast.In) and not pa.orelse and len(pa.body) == 2):
-            raise Refuse("Pauli substitution test")
-        pauli_names = str_list(pa.test.comparators[0])
-        mk, sub = pa.body
-        if not (isinstance(mk, ast.Expr) and isinstance(mk.value, ast.Call) and isinstance(mk.value.func, ast.Attribute)
-                and mk.value.func.attr == "append" and len(mk.value.args) == 1):
-            raise Refuse("Pauli marker statement")
-        dest = ast.unparse(mk.value.func.value)
-        if dest == "temp_resolved":
-            to_temp = True
-        elif dest == "qc_temp.gates":
-            to_temp = False
-        else:
-            raise Refuse("Pauli marker appended to " + dest)
-        marker = gate_call(mk.value.args[0], {})
-        if not (isinstance(sub, ast.Assign) and ast.unparse(sub.targets[0]) == "gate"):
-            raise Refuse("Pauli substitution statement")
-        subst = gate_call(sub.value, {})
-        TRY = ("try:\n    _resolve_to_universal(gate, temp_resolved, basis_1q, basis_2q)\n"
-               "except KeyError:\n    if gate.name in basis:\n        temp_resolved.append(gate)\n    else:\n")
-        if not (isinstance(tr, ast.Try) and ast.unparse(tr).startswith(TRY) and len(tr.handlers) == 1 and not tr.orelse and not tr.finalbody):
-            raise Refuse("try/except KeyError differs from the modelled one")
-        els = tr.handlers[0].body[0].orelse
-        if not (els and isinstance(els[-1], ast.Raise) and all(isinstance(x, (ast.Assign, ast.Raise)) for x in els)):
-            raise Refuse("unresolvable gate is not refused by raise")
-        # ---- two-qubit pass
-        st = nxt()
-        if ast.unparse(st) != "match = False":
-            raise Refuse("match flag")
-        st = nxt()
-        if not (isinstance(st, ast.For) and ast.unparse(st.target) == "basis_unit"):
-            raise Refuse("two-qubit pass loop")
-        order = str_list(st.iter)
-        if ast.unparse(st.body) != ("if basis_unit in basis_2q:\n    match = True\n"
-                                    "    _resolve_2q_basis(basis_unit, qc_temp, temp_resolved)\n    break"):
-            raise Refuse("two-qubit pass body")
-        st = nxt()
-        if ast.unparse(st) != "if not match:\n    qc_temp.gates = temp_resolved":
-            raise Refuse("no-match assignment")
-        # ---- third-rotation elimination
-        st = nxt()
-        if not (isinstance(st, ast.If) and ast.unparse(st.test) == "len(basis_1q) == 2" and not st.orelse):
-            raise Refuse("elimination guard")
-        eb = st.body
-        if len(eb) < 3 or ast.unparse(eb[0]) != "temp_resolved = qc_temp.gates" or ast.unparse(eb[1]) != "qc_temp.gates = []":
-            raise Refuse("elimination prologue")
-        env = {}
-        mid = eb[2:-1]
-        if any(not isinstance(s, ast.Assign) for s in mid):
-            raise Refuse("elimination: statement before the loop")
-        emits(mid, env, "qc_temp.gates")
-        loop = eb[-1]
-        if not (isinstance(loop, ast.For) and ast.unparse(loop.target) == "gate" and ast.unparse(loop.iter) == "temp_resolved" and not loop.orelse):
-            raise Refuse("elimination loop")
-
-        def elim_test(t):
-            if isinstance(t, ast.BoolOp) and isinstance(t.op, ast.And) and len(t.values) == 2:
-                nm = name_test(t.values[0])
-                if ast.unparse(t.values[1]) == f"'{nm}' not in basis_1q":
-                    return nm
-            raise Refuse("elimination test: " + ast.unparse(t))
-        elim = branches(loop.body, env, "qc_temp.gates", elim_test)
-        st = nxt()
-        if ast.unparse(st) != "qc_temp.gates = deepcopy(qc_temp.gates)":
-            raise Refuse("final deepcopy")
-        st = nxt()
-        if ast.unparse(st) != "return qc_temp" or i != len(body):
-            raise Refuse("return")
+            txt = ast.unparse(st)
+            main_done = "main" in seen
+            if isinstance(st, ast.Assign) and len(st.targets) == 1 and isinstance(st.targets[0], ast.Name) and not main_done:
+                nm = st.targets[0].id
+                if nm == "qc_temp" and isinstance(st.value, ast.Call) and ast.unparse(st.value.func) == "QubitCircuit" \
+                        and st.value.args and ast.unparse(st.value.args[0]) == "self.N" and "qc_temp" not in seen:
+                    seen["qc_temp"] = i
+                    continue
+                if nm == "temp_resolved" and txt == "temp_resolved = []" and "temp_resolved" not in seen:
+                    seen["temp_resolved"] = i
+                    continue
+                if isinstance(st.value, (ast.List, ast.Tuple)) and st.value.elts and nm not in consts and nm not in seen \
+                        and nm not in ("basis", "basis_1q", "basis_2q", "gate", "self"):
+                    consts[nm] = str_list(st.value)
+                    continue
+                if _meas_count(st.value) and nm not in consts and nm not in seen:
+                    counts.add(nm)
+                    continue
+                if nm not in consts and nm not in seen and nm not in scal and nm not in ("basis", "basis_1q", "basis_2q", "gate", "self"):
+                    try:
+                        scal[nm] = "(" + ex(st.value, scal) + ")"      # hoisted local constant (pi, half_pi, ...)
+                        continue
+                    except Refuse:
+                        pass
+            if isinstance(st, ast.Assign) and len(st.targets) == 1 and isinstance(st.targets[0], ast.Name) and txt.endswith("= False") \
+                    and "pass2q" not in seen:
+                flags_false.add(st.targets[0].id)
+                continue
+            if isinstance(st, ast.If) and not main_done and "meas" not in seen and not strip_doc(st.orelse) and _meas_test(st.test, counts) \
+                    and _only_raises(st.body):
+                seen["meas"] = i
+                continue
+            if isinstance(st, ast.If) and not main_done and "parse" not in seen and txt.startswith("if isinstance(basis, list):"):
+                if "basis_1q_valid" not in consts or "basis_2q_valid" not in consts:
+                    raise Refuse("basis parsing before the *_valid lists are defined")
+                data.update(_parse_basis_block(st, consts))
+                seen["parse"] = i
+                continue
+            if isinstance(st, ast.For) and ast.unparse(st.iter) == "self.gates" and not main_done:
+                for need in ("qc_temp", "temp_resolved", "meas", "parse"):
+                    if need not in seen:
+                        raise Refuse(f"main loop before {need}")
+                data.update(_parse_main_loop(st, scal))
+                seen["main"] = i
+                continue
+            if isinstance(st, ast.For) and main_done and "pass2q" not in seen:
+                order, used, flag = _parse_2q_pass(st, body[i:], flags_false)
+                i += used
+                data["order"] = order
+                seen["pass2q"] = i
+                continue
+            if isinstance(st, ast.If) and "pass2q" in seen and "elim" not in seen and ast.unparse(st.test) == "len(basis_1q) == 2":
+                data["elim"] = _parse_elim(st, scal)
+                seen["elim"] = i
+                continue
+            if txt == "qc_temp.gates = deepcopy(qc_temp.gates)" and "elim" in seen and "copy" not in seen:
+                seen["copy"] = i
+                continue
+            raise Refuse(f"unrecognised statement at line {st.lineno}: {txt[:80]}")
+        for need in ("main", "pass2q", "elim", "copy"):
+            if need not in seen:
+                raise Refuse(f"missing part: {need}")
+        # the constants and flags must not be touched anywhere else
+        stores = [n.id for n in ast.walk(m) if isinstance(n, ast.Name) and isinstance(n.ctx, (ast.Store, ast.Del))]
+        for nm in list(consts) + list(flags_false) + list(counts) + list(scal):
+            if stores.count(nm) > (2 if nm in flags_false else 1):
+                raise Refuse(f"local {nm} is reassigned")
+        for nm in flags_false:
+            loads = [n for n in ast.walk(m) if isinstance(n, ast.Name) and n.id == nm and isinstance(n.ctx, ast.Load)]
+            if len(loads) > 1:
+                raise Refuse(f"flag {nm} is read more than once")
     except Refuse as r:
         raise Broken(where, str(r))
-    return dict(default_basis=default_basis, v1=v1, v2=v2, d1_list=d1_list, d1_str=d1_str, listified=listified, rot_norm=rot_norm,
-                pauli_names=pauli_names, to_temp=to_temp, marker=marker, subst=subst, order=order, elim=elim)
+    return dict(default_basis=default_basis, v1=consts["basis_1q_valid"], v2=consts["basis_2q_valid"], **data)
+
+
+def atomic_write_if_changed(path, text):
+    """a refusal never reaches this point; the file is replaced in one step so that no reader sees a partial file"""
+    try:
+        with open(path) as f:
+            if f.read() == text:
+                return False
+    except FileNotFoundError:
+        pass
+    os.makedirs(os.path.dirname(path), exist_ok=True)
+    tmp = f"{path}.tmp.{os.getpid()}"
+    with open(tmp, "w") as f:
+        f.write(text)
+    os.replace(tmp, path)
+    return True
 
 
 def generate():
@@ -544,12 +907,15 @@ def generate():
         out.append(f"Definition str_basis_listified : bool := {'true' if r['listified'] else 'false'}.")
         out.append(f"Definition rot_normalised : bool := {'true' if r['rot_norm'] is not None else 'false'}.")
         out.append(f"Definition rot_norm_list : list string := {cstrs(r['rot_norm'] or [])}.")
+        if any(not X.isidentifier() for X in defs):
+            raise Refuse("rule name is not an identifier")
     except Refuse as e:
         raise Broken("translator:emit", str(e))
     text = "\n".join(out) + "\n"
-    write_if_changed(os.path.join(COQ, "Gen", "Decompose.v"), text)
+    atomic_write_if_changed(os.path.join(COQ, "Gen", "Decompose.v"), text)
     return dict(rules=sorted(defs), table=dict(table), passes={k: [n for n, _ in v] for k, v in passes.items()},
-                elim=[n for n, _ in r["elim"]], marker_to_temp=r["to_temp"], str_basis_listified=r["listified"], rot_normalised=r["rot_norm"], order=r["order"],
+                elim=[n for n, _ in r["elim"]], marker_to_temp=r["to_temp"], str_basis_listified=r["listified"],
+                rot_normalised=r["rot_norm"], order=r["order"],
                 n_emits=sum(t.count("EGate") + t.count("ESame") for t in defs.values()))
 
 
